@@ -98,7 +98,9 @@ def tokens(A, fi, ctx):
                         c_.func.attr == 'append' and isinstance(c_.func.value, ast.List):
                     # the receiver is the list built so far: its length depends on how far
                     # the loop was unrolled, the fact is what is appended
-                    add('call <list>.append(%s)' % ', '.join(txt(a) for a in c_.args))
+                    # (and what is appended shows in every later fact about the list: the
+                    # append itself is the same term as a longer list display)
+                    continue
                 else:
                     add('call ' + txt(e.expr))
             elif e.kind == 'write':
